@@ -29,4 +29,5 @@ BIG_STEREO = ['C[C@]12CC[C@H]3[C@@H](CCCC3)[C@@H]1CC[C@@H]2O', 'O[C@H]1C[C@@H]2C
               'C[C@H]1CC[C@@H]2[C@@H](C1)CC[C@H]2O']
 
 # canonical-string seeds too large for the style-flag product of C02 (used by C01 only)
-C01_ONLY = ['C1CCC1.C1CCCC1.C1CC1']
+C01_ONLY = ['C1CCC1.C1CCCC1.C1CC1',
+            'C/C(Cl)=C/CC/C=C(C)\\Cl']   # two constitutionally equivalent trisubstituted double bonds, opposite labels
